@@ -188,6 +188,29 @@ theorem join_keys_two_partial (a b d : Table) (da db : List (String × Cell))
   simp only [joinDef, hd, e1, e2]
   cases da.isEmpty <;> cases db.isEmpty <;> simp [Except.map]
 
+/-- **join_keys (any number of inputs without defaults)**: `tbl1 = reducer(mul, tables)` holds a key
+iff every one of the tables holds it (`hasKey t on k`: some row of `t` has a key `cmp`-equal to `k`
+on the columns `on`) — "one row per key present in every table input".  `FoldOK`: the tables share
+exactly the columns `on` (listed by the first table in the order of `on`), every other column
+belongs to one table only — the shape `_item` produces for inputs keyed by all of `on`. -/
+theorem join_keys_inner (on : List String) (hon : on ≠ []) (hnd : on.Nodup)
+    (d : Table) (ds : List Table) (r : Table) (hok : FoldOK on d ds)
+    (h : foldOR Table.mul d ds = some (.ok r)) (k : Val) :
+    hasKey r on k ↔ hasKey d on k ∧ ∀ t ∈ ds, hasKey t on k :=
+  hasKey_fold on hon hnd ds d r hok h k
+
+/-- the rows of a product of two tables sharing exactly `on`: the key-equal pairs of rows, each
+once, every product row carrying a key `cmp`-equal to the keys of both rows it combines -/
+theorem mul_rows_spec (a b d : Table) (on : List String) (hon : on ≠ []) (hnd : on.Nodup)
+    (hsh : linter a.cols b.cols = on) (hd : a.mul b = some (.ok d)) :
+    ∃ kp : List (Val × Nat × Nat),
+      d.nrows = kp.length ∧
+      (∀ p (hp : p < kp.length), rowKey d on p = kp[p].1) ∧
+      (kp.map (·.2)).Perm ((allPairs a.nrows b.nrows).filter fun q =>
+        cmp (rowKey a on q.1) (rowKey b on q.2) == .eq) ∧
+      ∀ p ∈ kp, cmp p.1 (rowKey a on p.2.1) = .eq ∧ cmp p.1 (rowKey b on p.2.2) = .eq :=
+  mul_rows a b d on hon hnd hsh hd
+
 /-- the inner part: the table `a * b` is the C02 join on the shared columns -/
 theorem mul_is_join (a b d : Table) (h : a.mul b = some (.ok d)) :
     ∃ v : VTable, join a b (some ((linter a.cols b.cols).map .col))
@@ -233,5 +256,8 @@ def tB : Table := [("k", [.int 2, .int 3, .int 4]), ("b", [.str "x", .str "y", .
 example : linter tA.cols tB.cols ≠ [] ∧
     tA.keysOf ((linter tA.cols tB.cols).map .col) = .ok [.tuple [.cell (.int 3)], .tuple [.cell (.int 1)], .tuple [.cell (.int 2)]] := by
   refine ⟨by decide, rfl⟩
+
+/-- the hypotheses of `join_keys_inner` are satisfiable: two inputs keyed by `k` -/
+example : FoldOK ["k"] tA [tB] := ⟨by decide, by decide, by decide, by decide⟩
 
 end Pyg.Props.C20
